@@ -245,6 +245,51 @@ Fixpoint xi_spec (fuel : nat) (onpath : list path) (base : path) (n : node) {str
     end
   end.
 
+(** Diagnostics of an accepted document: the only thing there is to report are the resource errors that are met and
+    recovered from through xi:fallback (4.4) -- nothing is reported for content that is never processed, in
+    particular not for an xi:fallback that is not used, however deep an xi:include sits in it.
+    [xi_resource_errors] = (resource errors, those of them that concern a text inclusion). *)
+Definition padd (a b : nat * nat) : nat * nat := (fst a + fst b, snd a + snd b)%nat.
+Definition psum (f : node -> nat * nat) (l : list node) : nat * nat := fold_right (fun n a => padd (f n) a) (O, O) l.
+Fixpoint xi_resource_errors (fuel : nat) (onpath : list path) (base : path) (n : node) {struct fuel} : nat * nat :=
+  match n with
+  | Elem ns nm at_ kids =>
+    match fuel with
+    | O => (O, O)
+    | S f =>
+      let b := elem_base base at_ in
+      if is_include ns nm then
+        match scan_fallback kids None, get_attr NS_NONE s_href at_, get_attr NS_NONE s_xpointer at_ with
+        | FS_ok fb, Some href, None =>
+          let parse := match get_attr NS_NONE s_parse at_ with Some p => p | None => s_xml end in
+          let target := resolve b (split_slash href) in
+          let fallback := match fb with
+                          | Some (fat, fkids) => psum (xi_resource_errors f onpath (elem_base b fat)) fkids
+                          | None => (O, O)
+                          end in
+          if str_eqb parse s_xml then
+            if path_mem target onpath then (O, O)
+            else match lookup fs target with
+                 | Some (FDoc top) => psum (xi_resource_errors f (target :: onpath) target) top
+                 | _ => padd (1%nat, O) fallback
+                 end
+          else if str_eqb parse s_text then
+            if negb (encoding_ok (get_attr NS_NONE s_encoding at_)) then padd (1%nat, 1%nat) fallback else
+            match lookup fs target with
+            | Some (FText _) => (O, O)
+            | _ => padd (1%nat, 1%nat) fallback
+            end
+          else (O, O)
+        | _, _, _ => (O, O)
+        end
+      else if is_fallback ns nm then (O, O)
+      else psum (xi_resource_errors f onpath b) kids
+    end
+  | _ => (O, O)
+  end.
+Definition xi_resource_errors_doc (fuel : nat) (uri : path) (top : list node) : nat * nat :=
+  psum (xi_resource_errors fuel [uri] uri) top.
+
 (** a document is a list of top-level nodes (comments and one element); the result must again have
     exactly the shape of a document *)
 Fixpoint count_elems (l : list snode) : nat :=
